@@ -36,6 +36,10 @@ Ghost0 == [drained |-> <<>>,      \* every line handed out through Changes.scrol
            savP |-> [known |-> TRUE, moved |-> FALSE, ctx |-> DefCtx],   \* most recent save on the primary screen (C17)
            savA |-> [known |-> TRUE, moved |-> FALSE, ctx |-> DefCtx],   \* ... on the alternate screen
            dclass |-> {},         \* known-finding classes the state was in when dump() was taken (C11)
+           dmirror |-> TRUE,      \* the dump text equals the specification's mirror of the pinned dump()
+           dstate |-> NoLine,     \* the state dump() was taken in
+           dstage |-> "none",     \* "dumped" until the first relation after the restore has been judged
+           dexact |-> FALSE,      \* the restored terminal is exactly what the pinned dump() is known to restore to
            lastText |-> <<>>,     \* the last text() output logged for this slot
            carry |-> <<>>]        \* TextUnwrapper carry of a collector slot
 
@@ -246,7 +250,8 @@ Handle(ll, e) ==
   ELSE IF k = "dump" THEN
     LET s == e.slot  cur == vts[s] IN
     IF cur = Dead THEN [vts |-> vts, gh |-> gh, msgs |-> <<>>]
-    ELSE [vts |-> vts, gh |-> [gh EXCEPT ![s].dclass = DumpClasses(cur)],
+    ELSE [vts |-> vts, gh |-> [gh EXCEPT ![s].dclass = DumpClasses(cur), ![s].dmirror = (e.out = VtDump(cur)),
+                                         ![s].dstate = [c |-> <<cur>>, w |-> FALSE], ![s].dstage = "dumped", ![s].dexact = FALSE],
           msgs |-> IF e.out = VtDump(cur) THEN <<>>
                    ELSE <<Msg("DRIFT", ll, "dump() text differs from the specification's mirror (the text is not a property)")>>]
   ELSE IF k = "text" THEN
@@ -259,11 +264,19 @@ Handle(ll, e) ==
   ELSE IF k = "rel" THEN
     LET a == vts[e.slots[1]]  b == vts[e.slots[2]]
         alive == \A i \in 1..Len(e.slots) : vts[e.slots[i]] # Dead
-    IN [vts |-> vts, gh |-> gh,
+        s1 == e.slots[1]
+        (* a C11 failure is attributed to a listed finding only if the dump-time state is in the class AND the
+           restored terminal is exactly what the pinned dump() (mirrored by Dump.tla) restores to *)
+        exactNow == gh[s1].dmirror \/ (gh[s1].dstate # NoLine /\ Pub(b) = Pub(Restored(gh[s1].dstate.c[1])))
+        exact == IF gh[s1].dstage = "dumped" THEN exactNow ELSE gh[s1].dexact
+        gh2 == IF alive /\ e.name = "ObsEq" /\ gh[s1].dstage = "dumped"
+               THEN [gh EXCEPT ![s1].dstage = "restored", ![s1].dexact = exactNow] ELSE gh
+    IN [vts |-> vts, gh |-> gh2,
         msgs |-> IF ~alive THEN <<>>
                  ELSE CASE e.name = "ObsEq" -> (IF ObsEq(a, b) THEN <<>>
-                                                 ELSE IF gh[e.slots[1]].dclass # {} THEN <<Msg("KNOWN C11", ll, "classes=" \o S(gh[e.slots[1]].dclass))>>
-                                                 ELSE <<Msg("FAIL C11", ll, "restored terminal differs: " \o S(DiffFields(Pub(a), Pub(b))))>>)
+                                                 ELSE IF gh[s1].dclass # {} /\ exact THEN <<Msg("KNOWN C11", ll, "classes=" \o S(gh[s1].dclass))>>
+                                                 ELSE <<Msg("FAIL C11", ll, "restored terminal differs: " \o S(DiffFields(Pub(a), Pub(b)))
+                                                            \o (IF gh[s1].dclass # {} THEN " (in class " \o S(gh[s1].dclass) \o " but not the known failure)" ELSE ""))>>)
                         [] e.name = "FreshEq" -> (IF FreshEq(a, b) THEN <<>> ELSE <<Msg("FAIL C19", ll, "differs from a fresh terminal: " \o S(TermDiff(NoDirty(a).t, NoDirty(b).t)))>>)
                         [] e.name = "ChunkEq" -> (IF ChunkEq(a, b) /\ ChunkEq(a, vts[e.slots[3]]) THEN <<>> ELSE <<Msg("FAIL C12", ll, "chunking changes the outcome: " \o S(TermDiff(Core(a), Core(b))) \o S(TermDiff(Core(a), Core(vts[e.slots[3]]))) \o S(a.p = b.p) \o S(a.t.buf.lines = b.t.buf.lines))>>)
                         [] e.name = "ChunkEqFlushed" -> (IF ChunkEqFlushed(a, b) /\ ChunkEqFlushed(a, vts[e.slots[3]]) THEN <<>> ELSE <<Msg("FAIL C12", ll, "chunking changes the outcome (after flush)")>>)
